@@ -228,6 +228,9 @@ class RegionMask:
                 weighted_cutout = cutout * self.data
 
             # fill values outside of the mask but within the bounding box
+            # (as in cutout, a plain fill value is taken in the data unit)
+            if isinstance(weighted_cutout, u.Quantity):
+                fill_value = u.Quantity(fill_value, weighted_cutout.unit)
             weighted_cutout[self._mask] = fill_value
 
             return weighted_cutout
